@@ -79,8 +79,15 @@ def check(ctx: Ctx) -> None:
     ctx.instance("R12.1", "_to_lmfit: a value outside its limits is refused before fitting")
     guard = [n for n in inner.body if isinstance(n, ast.If) and always_exits(n.body)]
     g_ok = False
+    from ..prov import inline_call
     for g in guard:
-        t = norm(g.test).replace(" ", "")
+        test_ = g.test
+        # a predicate helper (`not _is_within_limits(value, lo, hi)`) is replaced by the expression it returns
+        if isinstance(test_, ast.UnaryOp) and isinstance(test_.op, ast.Not) and isinstance(test_.operand, ast.Call):
+            inl = inline_call(model, tl, test_.operand)
+            if inl is not None:
+                test_ = ast.UnaryOp(op=ast.Not(), operand=inl)
+        t = norm(test_).replace(" ", "")
         lo, hi = kws.get("min", "?").replace(" ", ""), kws.get("max", "?").replace(" ", "")
         if t == f"not{lo}<={val}<={hi}" or t == f"not({lo}<={val}<={hi})":
             g_ok = g.lineno < kw_call.lineno
@@ -194,6 +201,9 @@ def check(ctx: Ctx) -> None:
         # the validated list is what is iterated (statement loop or comprehension), after the guard
         loops = [n for n in walk_ordered(fc.node) if isinstance(n, (ast.For, ast.comprehension)) and norm(n.iter) == var
                  and guards and getattr(n, "lineno", getattr(n.iter, "lineno", 0)) > guards[0].lineno]
+        # … or handed to a combinator that enumerates it (itertools.product, zip)
+        loops += [c for c in calls_in(fc.node) if dotted(c.func).split(".")[-1] in ("product", "zip") and any(norm(a) == var for a in c.args)
+                  and guards and c.lineno > guards[0].lineno]
         if guards and loops:
             ctx.ok()
         else:
